@@ -144,8 +144,8 @@ V_StatsExact ==
           LET n == Len(AddsAt(k)) IN
           /\ E.mlN[k + 1] = Abs(SumDp(k))
           /\ E.meanN[k + 1] = SumF1(k)
-          /\ E.vlN[k + 1] = n * SumDp2(k) - SumDp(k) * SumDp(k)
-          /\ E.varN[k + 1] = n * SumF2(k) - SumF1(k) * SumF1(k)
+          /\ (E.vchk = 1 => /\ E.vlN[k + 1] = n * SumDp2(k) - SumDp(k) * SumDp(k)
+                            /\ E.varN[k + 1] = n * SumF2(k) - SumF1(k) * SumF1(k))
           /\ E.clN[k + 1] = (k + 1) * n
           /\ E.kurt[k + 1] = E.kurt_ref[k + 1]
     /\ E.cost = SumSeq([k \in 1..NObs |-> k * Len(AddsAt(k - 1))])
